@@ -9,6 +9,9 @@ const ZOO = [
   ['negative-zero', 'return [Object.is(-0, 0 * -1), 1 / -0, -0 + w.i1].join() + w.s1'],
   ['string-escapes', "return ['\\x41\\u0042\\u{43}\\0\\b\\v\\f', 'a\\\nb', '\\u2028\\u2029', \"q'\\\"\"].map(x => [...x].map(c => c.codePointAt(0)).join('.')).join('|') + w.s1"],
   ['legacy-octal-escape-sloppy', "return ['\\08', '\\101', '\\7'].map(x => [...x].map(c => c.codePointAt(0)).join('.')).join('|') + w.s1", { sloppy: true }],
+  ['nonascii-with-escapes-string', "return ['[\\\\uD800-\\\\uDBFF][\\\\uDC00-\\\\uDFFF]|[·•]', 'é\\n\\x41\\u0041\\u{1F600}\\\\u0041 \\\\uD800 € \\\\x5c', \"ñ\\'\\\"\\\\\"].map(x => x.length + ':' + [...x].map(c => c.codePointAt(0).toString(16)).join('.')).join('|') + w.s1"],
+  ['nonascii-with-escapes-template', 'return [`C:\\x5cnotes\\x5crésumé`, `é\\x60\\x24{x}\\u0041€`, `ü${w.i1}\\x5c${w.i2}😀\\u{5c}`].map(x => x.length + \':\' + [...x].map(c => c.codePointAt(0).toString(16)).join(\'.\')).join(\'|\') + w.s1'],
+  ['nonascii-regex-and-keys', "const o = { 'clé': 1, 'ключ\\n': 2, [`ky\\x5cé`]: 3 }; return Object.keys(o).map(k => [...k].map(c => c.codePointAt(0)).join('.')).join('|') + /[é€]\\u0041\\x5c\\//u.source + /😀{2}/u.test('😀😀') + w.s1"],
   ['lone-surrogate-escape', "return ['\\ud83d', '\\ud83d\\ude00', '\\udc00x'].map(x => x.length + ':' + x.charCodeAt(0)).join('|') + w.s1"],
   ['template-raw', 'return String.raw`a\\n${w.i1}\\u0041\\x41b` + `c\\n\\u0041`.length + w.s1'],
   ['tagged-invalid-escape', 'return ((s) => String(s[0]) + s.raw[0])`\\unicode and \\xerxes` + w.s1'],
